@@ -13,8 +13,9 @@ from pyvc import dsl
 def run(contract_module, fid, gen, tier='quick', seed=0, limit=None):
     cmod = importlib.import_module(contract_module)
     c = dsl.REGISTRY[fid]
-    fn, kind = native.resolve(fid)
-    params = fn.__code__.co_varnames[:fn.__code__.co_argcount]
+    fn, kind = native.resolve(c.base_fid)
+    real = list(fn.__code__.co_varnames[:fn.__code__.co_argcount])
+    params = real + list(c.ghosts)
     genf = getattr(cmod, gen)
     evaluations = 0
     skipped = 0
@@ -26,7 +27,7 @@ def run(contract_module, fid, gen, tier='quick', seed=0, limit=None):
             break
         args = list(args)
         try:
-            fails = native.check_pure_call(c, cmod, fn, params, args)
+            fails = native.check_pure_call(c, cmod, fn, params, args, nreal=len(real))
         except Exception as exc:
             failures.append({'check': '%s#bounded' % fid, 'cls': {'error': type(exc).__name__},
                              'witness': repr(args), 'detail': 'contract evaluation failed: %s' % exc})
